@@ -7,14 +7,14 @@ From Settlus Require Import Base.Prelude Base.Hex Settlement.Model Settlement.Ma
 
 Definition msg_tenant (m : smsg) : option Z :=
   match m with
-  | MCreateTenant _ _ _ | MCreateTenantMC _ _ _ => None
+  | MCreateTenant _ _ _ | MCreateTenantMC _ _ _ _ _ => None
   | MAddAdmin _ t _ | MRemoveAdmin _ t _ | MUpdatePeriod _ t _ | MDeposit _ t _ _
   | MRecord _ t _ _ _ _ _ _ | MCancel _ t _ => Some t
   end.
 
 Definition msg_sender (m : smsg) : Z :=
   match m with
-  | MCreateTenant s _ _ | MCreateTenantMC s _ _ | MAddAdmin s _ _ | MRemoveAdmin s _ _ | MUpdatePeriod s _ _
+  | MCreateTenant s _ _ | MCreateTenantMC s _ _ _ _ | MAddAdmin s _ _ | MRemoveAdmin s _ _ | MUpdatePeriod s _ _
   | MDeposit s _ _ _ | MRecord s _ _ _ _ _ _ _ | MCancel s _ _ => s
   end.
 
@@ -295,7 +295,7 @@ Proof.
     destruct (bal_get l (treasury t') denom <? amt); [discriminate|]. inversion H; subst. split.
     + intros d. rewrite !bal_get_add_other; [reflexivity|sidec|sidec].
     + rewrite !bal_get_add_other; [reflexivity|sidec|sidec].
-  - destruct (method =? 1); [|discriminate].
+  - destruct (method =? 1); [|destruct (method =? 4); [inversion H; subst; auto|discriminate]].
     destruct (two256 <=? bal_get l sbt_supply (sbt_asset t') + amt); [discriminate|]. inversion H; subst. split.
     + intros d. rewrite !bal_get_add_other; [reflexivity|sidec|sidec].
     + rewrite !bal_get_add_other; [reflexivity|sidec|sidec].
@@ -337,7 +337,7 @@ Proof.
       * rewrite !bal_get_add_same. rewrite HT. reflexivity.
       * rewrite !bal_get_add_other by sidec. apply HT.
     + rewrite !bal_get_add_other by sidec. exact HS.
-  - destruct (method =? 1); [|exact I]. rewrite <- HS.
+  - destruct (method =? 1); [|destruct (method =? 4); [split; assumption|exact I]]. rewrite <- HS.
     destruct (two256 <=? bal_get l1 sbt_supply (sbt_asset t) + amt); [exact I|]. split.
     + intros d. rewrite !bal_get_add_other by sidec. apply HT.
     + rewrite !bal_get_add_same. rewrite !(bal_get_add_other _ addr) by sidec. rewrite HS. reflexivity.
@@ -397,7 +397,7 @@ Proof.
     destruct (valid_recips (u_recips u)).
     + destruct (settle_loop tn h recs _ faults) as [[s3 f3] g3] eqn:E3. inversion H; subst.
       eapply IH; [eassumption|]. simpl. apply utxr_del_sorted. assumption.
-    + destruct (negb ((t_method tn =? 0) || (t_method tn =? 1))); [inversion H; subst; assumption|].
+    + destruct (negb (payable_method (t_method tn))); [inversion H; subst; assumption|].
       destruct (pay_all _ _ _ _ _ _) as [[l'|] faults'].
       * destruct (settle_loop tn h recs _ faults') as [[s4 f4] g4] eqn:E4. inversion H; subst.
         eapply IH; [eassumption|]. simpl. apply utxr_del_sorted. assumption.
@@ -414,7 +414,7 @@ Proof.
     destruct (valid_recips (u_recips u)).
     + destruct (settle_loop tn h recs _ faults) as [[s3 f3] g3] eqn:E3. inversion H; subst.
       destruct He as [<-|He]; [reflexivity|eapply IH; eassumption].
-    + destruct (negb ((t_method tn =? 0) || (t_method tn =? 1))); [inversion H; subst; destruct He|].
+    + destruct (negb (payable_method (t_method tn))); [inversion H; subst; destruct He|].
       destruct (pay_all _ _ _ _ _ _) as [[l'|] faults'].
       * destruct (settle_loop tn h recs _ faults') as [[s4 f4] g4] eqn:E4. inversion H; subst.
         destruct He as [<-|He]; [reflexivity|eapply IH; eassumption].
@@ -462,7 +462,7 @@ Proof.
       eapply agree_trans; [|eapply IH; eassumption].
       pose proof (remove_other_agree t s (s_bal s) (t_id tn) uid (u_req u) Hne (fun d => eq_refl) eq_refl) as R.
       destruct s; exact R.
-    + destruct (negb ((t_method tn =? 0) || (t_method tn =? 1))); [inversion H; subst; apply agree_refl|].
+    + destruct (negb (payable_method (t_method tn))); [inversion H; subst; apply agree_refl|].
       destruct (pay_all (t_method tn) (t_id tn) (u_denom u) (s_bal s) faults (payout_amounts u)) as [[l'|] faults'] eqn:Ep.
       * destruct (settle_loop tn h recs _ faults') as [[s4 f4] g4] eqn:E4. inversion H; subst.
         eapply agree_trans; [|eapply IH; eassumption].
@@ -506,7 +506,7 @@ Proof.
       replace (set_utxrs (set_bal s1 (s_bal s1)) (utxr_del (s_utxrs s1) (t_id tn) uid)) with (set_utxrs s1 (utxr_del (s_utxrs s1) (t_id tn) uid)) in E1 by (destruct s1; reflexivity).
       replace (set_utxrs (set_bal s2 (s_bal s2)) (utxr_del (s_utxrs s2) (t_id tn) uid)) with (set_utxrs s2 (utxr_del (s_utxrs s2) (t_id tn) uid)) in E2 by (destruct s2; reflexivity).
       rewrite E1, E2. exists s1', s2', (GDropped (t_id tn) uid :: g). auto.
-    + destruct (negb ((t_method tn =? 0) || (t_method tn =? 1))); [exists s1, s2, []; auto|].
+    + destruct (negb (payable_method (t_method tn))); [exists s1, s2, []; auto|].
       pose proof (pay_all_congruence (t_method tn) (t_id tn) (u_denom u) (payout_amounts u) (s_bal s1) (s_bal s2) Htn
                     (payout_outs_accounts u (Hacc (uid, u) (or_introl eq_refl))) (ag_tre _ _ _ HA) (ag_sup _ _ _ HA)) as Hp.
       pose proof (pay_all_nofault (t_method tn) (t_id tn) (u_denom u) (payout_amounts u) (s_bal s1)) as N1.
